@@ -189,9 +189,22 @@ def size_of(c):
     return sum(len(rs.get("rows") or []) for rs in c.get("script") or []) * 50 + len(json.dumps(c.get("params")))
 
 
+FINDING_SUBQUERY = "promql-subquery-steps-unbounded"
+FINDING_SUBQUERY_QUERIES = ("up[30d:1ms]",)
+
+
 def is_finding_range(c):
-    """the recorded finding: a matrix query whose (end-start)/step (or range/duration) is unbounded"""
-    return c.get("class", "").startswith("finding/matrix-range-unbounded")
+    """a recorded finding's witness: corpus class finding/<id>, or a generated request with exactly the recorded input"""
+    return finding_id(c) is not None
+
+
+def finding_id(c):
+    cl = c.get("class", "")
+    if cl.startswith("finding/"):
+        return cl.split("/")[1].split("+")[0]
+    if cl.startswith("test/prom_instant_wide") and any(p["k"] == "query" and p["v"] in FINDING_SUBQUERY_QUERIES for p in c.get("params") or []):
+        return FINDING_SUBQUERY
+    return None
 
 
 def test_oracle(c):
@@ -393,11 +406,12 @@ def run(ck):
     bad = []
     for c in testonly:
         if is_finding_range(c):
-            code = obs_code(c["obs"])
-            if code in (3, 5) and "matrix-range-unbounded" in known:
-                ck.report_known("matrix-range-unbounded", "corpus witness start=0&step=1 on rate({a=\"b\"}[1m]): " + c["obs"].get("panic", "")[:120])
-            elif code in (3, 4, 5, 6):
-                bad.append((c, "finding witness violates but is not listed"))
+            code, fid = obs_code(c["obs"]), finding_id(c)
+            if code in (3, 5) and fid in known:
+                ck.report_known(fid, "%s %s: %s %s" % (c["path"], " ".join("%s=%s" % (p["k"], p["v"]) for p in c["params"]),
+                                                       CODE_NAME[code], c["obs"].get("panic", "")[:120]))
+            elif code in (3, 4, 5, 6, 10):
+                bad.append((c, "finding witness violates but is not listed (or violates in another way): " + CODE_NAME[code]))
             continue
         why = test_oracle(c)
         if why:
